@@ -77,13 +77,41 @@ def _pad_of_spec(spec: str) -> T.Optional[int]:
     return None
 
 
+def _formatter_expr(fn: FunctionInfo, depth: int = 3) -> ast.AST:
+    """The returned expression of a one-argument formatter in terms of its parameter: single-assignment locals are
+    substituted, a call of another one-argument formatter of the module (`_fmt_num(int(val))`) is unfolded."""
+    import copy
+    body = [st for st in fn.node.body if not (isinstance(st, ast.Expr) and isinstance(st.value, ast.Constant))]
+    if not body or not isinstance(body[-1], ast.Return) or body[-1].value is None or len(fn.params) != 1:
+        raise AnalysisError(f"formatter {fn.fq}: body is not a single return of one parameter")
+    defs: T.Dict[str, ast.AST] = {}
+
+    def subst(expr: ast.AST, table: T.Dict[str, ast.AST]) -> ast.AST:
+        class Sub(ast.NodeTransformer):
+            def visit_Name(self, node: ast.Name) -> ast.AST:
+                return copy.deepcopy(table[node.id]) if isinstance(node.ctx, ast.Load) and node.id in table else node
+        return Sub().visit(copy.deepcopy(expr))
+    for st in body[:-1]:
+        tgt = st.targets[0] if isinstance(st, ast.Assign) and len(st.targets) == 1 else (st.target if isinstance(st, ast.AnnAssign) and st.value is not None else None)
+        if not isinstance(tgt, ast.Name) or tgt.id in defs or tgt.id == fn.params[0]:
+            raise AnalysisError(f"formatter {fn.fq}: body is not a single return of one parameter")
+        defs[tgt.id] = subst(st.value, defs)
+    e = subst(body[-1].value, defs)
+    if isinstance(e, ast.Call) and isinstance(e.func, ast.Name) and e.func.id in fn.module.functions and len(e.args) == 1 and not e.keywords and depth > 0:
+        callee = fn.module.functions[e.func.id]
+        if len(callee.params) == 1 and callee is not fn:
+            e = subst(_formatter_expr(callee, depth - 1), {callee.params[0]: e.args[0]})
+            # int(int(x)) is int(x)
+            for n in ast.walk(e):
+                if isinstance(n, ast.Call) and unparse(n.func) == "int" and len(n.args) == 1 and isinstance(n.args[0], ast.Call) and unparse(n.args[0].func) == "int" and len(n.args[0].args) == 1:
+                    n.args = n.args[0].args
+    return e
+
+
 def describe_formatter(fn: FunctionInfo) -> Desc:
     """Recognise the body of a one-argument formatter function."""
-    body = [st for st in fn.node.body if not (isinstance(st, ast.Expr) and isinstance(st.value, ast.Constant))]
-    if len(body) != 1 or not isinstance(body[0], ast.Return) or body[0].value is None or len(fn.params) != 1:
-        raise AnalysisError(f"formatter {fn.fq}: body is not a single return of one parameter")
-    p = fn.params[0]
-    e = body[0].value
+    p = fn.params[0] if len(fn.params) == 1 else ""
+    e = _formatter_expr(fn)
     # str(X)
     if isinstance(e, ast.Call) and unparse(e.func) == "str" and len(e.args) == 1:
         inner, canon = _strip_int(e.args[0])
@@ -189,11 +217,26 @@ def calendar_domains(prog: Program, fq: str, year_range: T.Tuple[int, int]) -> T
     table = field_table(fn)
     if table is None:
         raise AnalysisError(f"{fq}: expected one field dict")
-    date_param = fn.params[0] if fn.params else "date"
+    date_param = date_name(fn)
     out: T.Dict[str, T.Tuple[Domain, str]] = {}
     for k, v in table.items():
         out[k] = _cal_expr_domain(prog, fn, v, date_param, year_range)
     return out
+
+
+def date_name(fn: FunctionInfo) -> str:
+    """The name that holds "the given date, or today" in a cal_info function: the date parameter itself (re-bound under
+    `if date is None:`), or a local whose only definition chooses between the parameter and another value on `date is None`."""
+    p = fn.params[0] if fn.params else "date"
+    for n in ast.walk(fn.node):
+        tgt = n.targets[0] if isinstance(n, ast.Assign) and len(n.targets) == 1 else (n.target if isinstance(n, ast.AnnAssign) and n.value is not None else None)
+        if isinstance(tgt, ast.Name) and tgt.id != p and isinstance(n.value, ast.IfExp):
+            t, v = unparse(n.value.test), n.value
+            if (t == f"{p} is None" and unparse(v.orelse) == p) or (t == f"{p} is not None" and unparse(v.body) == p):
+                stores = [x for x in ast.walk(fn.node) if isinstance(x, ast.Name) and x.id == tgt.id and isinstance(x.ctx, ast.Store)]
+                if len(stores) == 1:
+                    return tgt.id
+    return p
 
 
 def field_table(fn: FunctionInfo) -> T.Optional[T.Dict[str, ast.AST]]:
